@@ -182,6 +182,21 @@ theorem c16_interrupt_anywhere_kills (at_ : InterruptAt) (s : Situation) (t : Tr
   simp only [List.append_assoc, List.mem_append, List.mem_map]
   exact Or.inl ⟨p, (c16_collect_mem t p).mpr hp, rfl⟩
 
+/-- … and whether or not `Popen` has already returned: an interrupt while the pid is not yet
+published kills the child just the same (the kill waits for the pid) -/
+theorem c16_kill_independent_of_pid_publication (pidKnown : Bool) (s : Situation) (h : honestOutsideInterrupt s) :
+    killsAtPid pidKnown s = true ↔ (s.timeout ≠ -1 ∨ s.joinEnd = .interrupt) ∧ s.childRunning = true :=
+  c16_kill_iff s h
+
+/-- a decision that needs the pid at that moment leaves the child of a slow `Popen` running -/
+theorem c16_pid_required_full_fails :
+    ¬ (∀ (pidKnown : Bool) (s : Situation), honestOutsideInterrupt s →
+        (killsOnlyIfPidKnown pidKnown s = true ↔ (s.timeout ≠ -1 ∨ s.joinEnd = .interrupt) ∧ s.childRunning = true)) := by
+  intro h
+  have := h false ⟨-1, .interrupt, false, true, false⟩ (by intro hne; exact absurd rfl hne)
+  revert this
+  decide
+
 /-- with `thread.start()` outside the `try` (the tree before the second repair) that is false:
 an interrupt during `start()` leaves the child running -/
 theorem c16_interrupt_at_start_full_fails :
